@@ -12,8 +12,8 @@ import (
 // that need quoting, the empty string, keyword-like names, unicode, strings
 // that are prefixes of one another, and strings with characters that need
 // escaping.
-var Names = []string{"x", "y", "a b", "", "AND", "attributes", "é", "x1", "1x", "_z", "NOT", "hasPrefix", "x.y", `q"`}
-var Values = []string{"", "x", "xy", "xyz", "y", "yx", "é", `"`, `\`, "a b", "X", "\n", "<&>"}
+var Names = []string{"x", "y", "a b", "", "AND", "attributes", "é", "x1", "1x", "_z", "NOT", "hasPrefix", "x.y", `q"`, "!", "=", "-", "(", ",", "OR"}
+var Values = []string{"", "x", "xy", "xyz", "y", "yx", "é", `"`, `\`, "a b", "X", "\n", "<&>", "=", "!", ")", ",", "AND"}
 
 func genName() *rapid.Generator[string] {
 	return rapid.OneOf(rapid.SampledFrom(Names), rapid.SampledFrom(Names), rapid.StringMatching(`[a-zé_][a-z0-9_]{0,3}`), rapid.StringN(0, 4, 8))
@@ -178,6 +178,9 @@ var mutPool = []Tok{
 	// lexemes outside the documented language (Go-style comments are what a
 	// Go scanner based lexer would swallow silently)
 	Ill("/* c */"), Ill("// c\n"), Ill("/*\"*/"), Ill("/**/"), Ill(";"), Ill("+"),
+	// a quoted string is a string whatever it spells: it is neither an operator
+	// nor a keyword
+	Str("AND"), Str("OR"), Str("NOT"), Str("-"), Str("!"), Str("="), Str("("), Str(")"), Str(","), Str(":"), Str("."), Str("attributes"), Str("hasPrefix"),
 }
 
 // Mutate applies one token-level mutation and describes it.
